@@ -26,6 +26,10 @@ for pid in ids:
         why = [l for l in lines if l.startswith("# ")]
         res = {"exit": p.returncode, "violations": viol[:3], "messages": [w[:300] for w in why[:3]],
                "caught": p.returncode == 1 and bool(viol), "concrete_input": any("no-failing-input-found" not in v for v in viol)}
+        if os.environ.get("SEED_EVAL_NOWRITE"):
+            print(pid, n, "CAUGHT" if res["caught"] else "MISSED rc=%d" % p.returncode, "(concrete input)" if res["concrete_input"] else "", "|",
+                  (why[0][:140] if why else lines[-1][:140] if lines else ""))
+            continue
         dst = os.path.join("/verif/seeded", pid, n)
         os.makedirs(dst, exist_ok=True)
         for f in ("patch.diff", "demonstration.md"):
